@@ -121,6 +121,86 @@ theorem get_update (m m2 : Map α) (k : Nat) :
     simp only [List.foldl_cons, ih, get_set, Map.get]
     grind
 
+/-! sortedness: every map of the model is built by `set`/`del` from `[]`, so its keys are strictly
+    increasing; needed where the code iterates over a dict while mutating it (`popitem`) -/
+
+abbrev Sorted (m : Map α) : Prop := m.Pairwise (fun x y => x.1 < y.1)
+
+theorem sorted_nil : Sorted ([] : Map α) := List.Pairwise.nil
+
+theorem set_sorted {m : Map α} (h : Sorted m) (k : Nat) (v : α) : Sorted (m.set k v) := by
+  induction m with
+  | nil => simp [Map.set, Sorted]
+  | cons x t ih =>
+    obtain ⟨k₀, v₀⟩ := x
+    rw [Sorted, List.pairwise_cons] at h
+    simp only [Map.set]
+    split
+    · rw [Sorted, List.pairwise_cons, List.pairwise_cons]
+      refine ⟨?_, h⟩
+      intro y hy
+      rcases List.mem_cons.1 hy with hy | hy
+      · subst hy; assumption
+      · have := h.1 y hy; simp only at this ⊢; omega
+    · split
+      · subst_vars
+        rw [Sorted, List.pairwise_cons]; exact h
+      · rw [Sorted, List.pairwise_cons]
+        refine ⟨?_, ih h.2⟩
+        intro y hy
+        have hmem : y = (k, v) ∨ y ∈ t := by
+          clear ih h
+          induction t with
+          | nil => simp [Map.set] at hy; exact Or.inl hy
+          | cons z t' ih' =>
+            obtain ⟨k₁, v₁⟩ := z
+            simp only [Map.set] at hy
+            split at hy
+            · rcases List.mem_cons.1 hy with hy | hy
+              · exact Or.inl hy
+              · exact Or.inr hy
+            · split at hy
+              · rcases List.mem_cons.1 hy with hy | hy
+                · exact Or.inl hy
+                · exact Or.inr (List.mem_cons_of_mem _ hy)
+              · rcases List.mem_cons.1 hy with hy | hy
+                · exact Or.inr (by rw [hy]; exact List.mem_cons_self)
+                · rcases ih' hy with h' | h'
+                  · exact Or.inl h'
+                  · exact Or.inr (List.mem_cons_of_mem _ h')
+        rcases hmem with hy | hy
+        · subst hy; simp only; omega
+        · exact h.1 y hy
+
+theorem del_sorted {m : Map α} (h : Sorted m) (k : Nat) : Sorted (m.del k) :=
+  List.Pairwise.sublist List.filter_sublist h
+
+theorem get_of_mem_sorted {m : Map α} (h : Sorted m) {k : Nat} {v : α} (hm : (k, v) ∈ m) :
+    m.get k = some v := by
+  induction m with
+  | nil => simp at hm
+  | cons x t ih =>
+    obtain ⟨k₀, v₀⟩ := x
+    rw [Sorted, List.pairwise_cons] at h
+    simp only [Map.get]
+    rcases List.mem_cons.1 hm with hm | hm
+    · simp_all
+    · have := h.1 _ hm
+      simp only at this
+      rw [if_neg (by omega)]
+      exact ih h.2 hm
+
+/-- popping the first item of a sorted map = deleting its key -/
+theorem del_head_sorted {k : Nat} {v : α} {t : Map α} (h : Sorted ((k, v) :: t)) :
+    Map.del ((k, v) :: t) k = t := by
+  rw [Sorted, List.pairwise_cons] at h
+  simp only [Map.del, List.filter, bne_self_eq_false]
+  apply List.filter_eq_self.2
+  intro y hy
+  have := h.1 y hy
+  simp only at this ⊢
+  simp; omega
+
 end Map
 
 end Proofs.Conn
